@@ -410,6 +410,11 @@ c15_asan = B("c15_asan", C15_SRC, "asan", ldflags=WRAP)
 c15_tab_asan = B("c15_tab_asan", C15_SRC, "asan", defs=["C15_TABLES"], ldflags=WRAP)
 
 
+def jobs_c10(tier):
+    # the codec lab's rigs have no handle channel: handle-bearing types get their fault enumeration from the handle lab
+    return codec_jobs("C10")(tier) + [job(c15, "--tier", tier, "--c10"), job(c15_tab, "--tier", tier, "--c10")]
+
+
 def jobs_c15(tier):
     js = [job(c15, "--tier", tier), job(c15_tab, "--tier", tier)]
     if tier == "thorough":
@@ -417,6 +422,7 @@ def jobs_c15(tier):
     return js
 
 
+CHECKS["C10"]["jobs"] = jobs_c10
 CHECKS["C15"] = dict(
     engine="lifetime-lab", level="model_checking", jobs=jobs_c15, build_failure_is_violation=True,
     level_text="transport: for 20 handle-bearing types (handles as members, vector/array elements, Optional, Variant "
